@@ -96,6 +96,60 @@ def main():
                   fail('c18-idempotence-openmetrics-lookalike', x=xo, carbon=ycar, openmetrics=yo)
                 else:
                   fail('c18-syntax-disagreement', carbon_input=carbon(name, perm), openmetrics_input=xo, carbon=ycar, openmetrics=yo)
+  # OpenMetrics inputs with a malformed pair among well-formed ones (empty value, unescaped quote,
+  # missing comma / equals / quotes, trailing garbage): an independent strict reading of
+  # name{tag="value",...} rejects them, so the parser must too (they are then stored as received)
+  def strict_om(x):
+    if not x.endswith('}') or '{' not in x:
+      return None
+    name, body = x[:-1].split('{', 1)
+    if not name:
+      return None
+    i, n, pairs = 0, len(body), 0
+    while i < n:
+      j = body.find('="', i)
+      if j <= i:
+        return None
+      k = j + 2
+      val = []
+      while k < n and body[k] != '"':
+        if body[k] == '\\':
+          if k + 1 < n and body[k + 1] in '"\\':
+            val.append(body[k + 1])
+            k += 2
+            continue
+          return None
+        val.append(body[k])
+        k += 1
+      if k >= n or not val:
+        return None
+      k += 1
+      if k < n:
+        if body[k] != ',':
+          return None
+        k += 1
+      pairs += 1
+      i = k
+    return pairs
+  good = ['a="1"', 'b="v"', 'z="x y"']
+  bad = ['c=""', 'c="a"b"', 'c=x', 'c', '="v"', 'c="v', 'c="v"x', 'c="\\q"']
+  for name in ('m', 'n.x'):
+    for k in (1, 2):
+      for goods in itertools.permutations(good, k):
+        for b in bad:
+          for pos in range(k + 1):
+            parts = list(goods[:pos]) + [b] + list(goods[pos:])
+            for sep in (',',):
+              x = name + '{' + sep.join(parts) + '}'
+              evals += 1
+              if not x.endswith('"}'):
+                continue          # (not OpenMetrics syntax for the parser: a carbon name)
+              if strict_om(x) is None and norm(x) is not None and not lookalike(norm(x)):
+                fail('c18-openmetrics-malformed-accepted', x=x, normalised=norm(x))
+        x = name + '{' + ''.join(goods) + '}'          # pairs without separating commas
+        evals += 1
+        if k > 1 and strict_om(x) is None and norm(x) is not None:
+          fail('c18-openmetrics-malformed-accepted', x=x, normalised=norm(x))
   # a tag given twice: whatever the rule is (the last one wins), both syntaxes must follow it
   for name in ('n', 'm.x', '~n'):
     for k in ('a', 'b', 'name'):
@@ -113,4 +167,9 @@ def main():
 
 
 if __name__ == '__main__':
-  main()
+  import os as _os
+  sys_path_dir = _os.path.dirname(_os.path.abspath(__file__))
+  import sys as _sys
+  _sys.path.insert(0, sys_path_dir)
+  from _guard import run_guarded
+  run_guarded(main, _os.path.basename(__file__))
